@@ -479,6 +479,15 @@ impl BudgetEnforcer {
         }
     }
 
+    /// The alias just observed is about to be replaced by a replay of its target, whose
+    /// events are observed too: give the alias's key/value slot back so that the replayed
+    /// node is the one that fills it (otherwise the mapping's key/value parity flips).
+    pub(crate) fn alias_slot_refilled_by_replay(&mut self) {
+        if let Some(ContainerState::Mapping { expecting_key, .. }) = self.containers.last_mut() {
+            *expecting_key = !*expecting_key;
+        }
+    }
+
     fn entering_container(&mut self) -> bool {
         if let Some(ContainerState::Mapping { expecting_key, .. }) = self.containers.last_mut() {
             if *expecting_key {
